@@ -482,13 +482,7 @@ def judge(case, model, am, lst, mark, step, rec, V, state, names, gone=()):
         got = [w for (w, _) in per.get(nm, [])]
         acc = expect.get(nm, [[]])
         if got in acc:
-            if "added" in got and kind in ("ev", "boot"):
-                evs = [arg] if kind == "ev" else [e for e in arg if e["name"] == nm]
-                ip = [i for (w, i) in per[nm] if w == "added"][0]
-                if evs and ip != evs[-1]["addr"]:
-                    V("added-wrong-mapping", model.history_class(nm) if nm in model.names else "unknown-name",
-                      {"name": nm, "announced": ip, "want": evs[-1]["addr"]}, hard=False)
-            continue
+            continue        # (what the announced Addr holds is not part of the statement: not judged)
         cls = model.history_class(nm) if nm in model.names else "unknown-name"
         if kind == "ev" and nm == arg["name"] and arg["addr"] == M.ERROR:
             cls = "error-on-live-name" if model.names[nm].history[-1][1] else "error-on-new-name"
